@@ -57,7 +57,7 @@ package websocket
 //@     ensures {C04} result == nil
 //@     ensures {C12,C06} forall t: uint32, e: uint32 :: hasComp(S.entityComponents, t, e) <==> (old(hasComp(S.entityComponents, t, e)) && e != id)
 //@     ensures {C05} forall e: uint32 :: (e in S.entities) <==> (old(e in S.entities) && e != id)
-//@     emits {C04,C02,C17} [send(respond, hagallpb.EntityDeleteResponse{Type: hagallpb.MsgType_MSG_TYPE_ENTITY_DELETE_RESPONSE, RequestId: req.RequestId}); when !flag(h.FeatureFlags, featureflag.FlagDisableEntityDeleteBroadcast) =>> Broadcast(S, P, hagallpb.EntityDeleteBroadcast{Type: hagallpb.MsgType_MSG_TYPE_ENTITY_DELETE_BROADCAST, OriginTimestamp: req.Timestamp, EntityId: id})]
+//@     emits {C04,C02} [send(respond, hagallpb.EntityDeleteResponse{Type: hagallpb.MsgType_MSG_TYPE_ENTITY_DELETE_RESPONSE, RequestId: req.RequestId}); when !flag(h.FeatureFlags, featureflag.FlagDisableEntityDeleteBroadcast) =>> Broadcast(S, P, hagallpb.EntityDeleteBroadcast{Type: hagallpb.MsgType_MSG_TYPE_ENTITY_DELETE_BROADCAST, OriginTimestamp: req.Timestamp, EntityId: id})]
 //@   complete behaviours
 //@   disjoint behaviours
 
@@ -102,7 +102,7 @@ package websocket
 //@     ensures {C05,C01} forall e: uint32 :: e != eid ==> ((e in S.entities) <==> old(e in S.entities)) && (e in S.entities ==> S.entities[e] == old(S.entities[e]))
 //@     ensures {C06} eid in P.entityIDs
 //@     ensures {C12} forall t: uint32, e: uint32 :: hasComp(S.entityComponents, t, e) <==> old(hasComp(S.entityComponents, t, e))
-//@     emits {C04,C02,C17} [send(respond, hagallpb.EntityAddResponse{Type: hagallpb.MsgType_MSG_TYPE_ENTITY_ADD_RESPONSE, RequestId: req.RequestId, EntityId: eid}); when !flag(h.FeatureFlags, featureflag.FlagDisableEntityAddBroadcast) =>> Broadcast(S, P, hagallpb.EntityAddBroadcast{Type: hagallpb.MsgType_MSG_TYPE_ENTITY_ADD_BROADCAST, OriginTimestamp: req.Timestamp, Entity: hagallpb.Entity{Id: eid, ParticipantId: P.ID, Flag: req.Flag}})]
+//@     emits {C04,C02} [send(respond, hagallpb.EntityAddResponse{Type: hagallpb.MsgType_MSG_TYPE_ENTITY_ADD_RESPONSE, RequestId: req.RequestId, EntityId: eid}); when !flag(h.FeatureFlags, featureflag.FlagDisableEntityAddBroadcast) =>> Broadcast(S, P, hagallpb.EntityAddBroadcast{Type: hagallpb.MsgType_MSG_TYPE_ENTITY_ADD_BROADCAST, OriginTimestamp: req.Timestamp, Entity: hagallpb.Entity{Id: eid, ParticipantId: P.ID, Flag: req.Flag}})]
 //@   complete behaviours
 //@   disjoint behaviours
 
@@ -139,7 +139,7 @@ package websocket
 //@     ensures {C11} result == nil
 //@     ensures {C11,C01} S.entities[id].pose.PX == req.Pose.Px && S.entities[id].pose.PY == req.Pose.Py && S.entities[id].pose.PZ == req.Pose.Pz && S.entities[id].pose.RX == req.Pose.Rx && S.entities[id].pose.RY == req.Pose.Ry && S.entities[id].pose.RZ == req.Pose.Rz && S.entities[id].pose.RW == req.Pose.Rw
 //@     ensures {C11} unchanged_except("models.Entity.pose")
-//@     emits {C11,C02,C17} [when !flag(h.FeatureFlags, featureflag.FlagDisableEntityUpdatePoseBroadcast) =>> Broadcast(S, P, hagallpb.EntityUpdatePoseBroadcast{Type: hagallpb.MsgType_MSG_TYPE_ENTITY_UPDATE_POSE_BROADCAST, OriginTimestamp: req.Timestamp, EntityId: id, Pose: hagallpb.Pose{Px: req.Pose.Px, Py: req.Pose.Py, Pz: req.Pose.Pz, Rx: req.Pose.Rx, Ry: req.Pose.Ry, Rz: req.Pose.Rz, Rw: req.Pose.Rw}})]
+//@     emits {C11,C02} [when !flag(h.FeatureFlags, featureflag.FlagDisableEntityUpdatePoseBroadcast) =>> Broadcast(S, P, hagallpb.EntityUpdatePoseBroadcast{Type: hagallpb.MsgType_MSG_TYPE_ENTITY_UPDATE_POSE_BROADCAST, OriginTimestamp: req.Timestamp, EntityId: id, Pose: hagallpb.Pose{Px: req.Pose.Px, Py: req.Pose.Py, Pz: req.Pose.Pz, Rx: req.Pose.Rx, Ry: req.Pose.Ry, Rz: req.Pose.Rz, Rw: req.Pose.Rw}})]
 //@   complete behaviours
 //@   disjoint behaviours
 
@@ -166,11 +166,11 @@ package websocket
 //@   behaviour targeted:
 //@     assumes decode_ok(msg) && joined(h) && len(req.Body) <= 10240 && len(req.ParticipantIds) != 0
 //@     ensures {C14} result == nil
-//@     emits {C14,C02,C17} [when !flag(h.FeatureFlags, featureflag.FlagDisableCustomMessageBroadcast) =>> BroadcastTo(S, P, hagallpb.CustomMessageBroadcast{Type: hagallpb.MsgType_MSG_TYPE_CUSTOM_MESSAGE_BROADCAST, OriginTimestamp: req.Timestamp, ParticipantId: P.ID, Body: req.Body}, req.ParticipantIds)]
+//@     emits {C14,C02} [when !flag(h.FeatureFlags, featureflag.FlagDisableCustomMessageBroadcast) =>> BroadcastTo(S, P, hagallpb.CustomMessageBroadcast{Type: hagallpb.MsgType_MSG_TYPE_CUSTOM_MESSAGE_BROADCAST, OriginTimestamp: req.Timestamp, ParticipantId: P.ID, Body: req.Body}, req.ParticipantIds)]
 //@   behaviour untargeted:
 //@     assumes decode_ok(msg) && joined(h) && len(req.Body) <= 10240 && len(req.ParticipantIds) == 0
 //@     ensures {C14} result == nil
-//@     emits {C14,C02,C17} [when !flag(h.FeatureFlags, featureflag.FlagDisableCustomMessageBroadcast) =>> Broadcast(S, P, hagallpb.CustomMessageBroadcast{Type: hagallpb.MsgType_MSG_TYPE_CUSTOM_MESSAGE_BROADCAST, OriginTimestamp: req.Timestamp, ParticipantId: P.ID, Body: req.Body})]
+//@     emits {C14,C02} [when !flag(h.FeatureFlags, featureflag.FlagDisableCustomMessageBroadcast) =>> Broadcast(S, P, hagallpb.CustomMessageBroadcast{Type: hagallpb.MsgType_MSG_TYPE_CUSTOM_MESSAGE_BROADCAST, OriginTimestamp: req.Timestamp, ParticipantId: P.ID, Body: req.Body})]
 //@   complete behaviours
 //@   disjoint behaviours
 
@@ -308,7 +308,7 @@ package websocket
 //@     assumes decode_ok(msg) && T != 0 && E != 0 && joined(h) && E in S.entities && T in C.nameIndex && !hasComp(C, T, E)
 //@     ensures {C12} result == nil && hasComp(C, T, E) && compAt(C, T, E).Data == req.Data
 //@     ensures {C12} forall t: uint32, e: uint32 :: (t != T || e != E) ==> (hasComp(C, t, e) <==> old(hasComp(C, t, e))) && (hasComp(C, t, e) ==> compAt(C, t, e) == old(compAt(C, t, e)))
-//@     emits {C12,C13,C04,C17} [send(respond, hagallpb.EntityComponentAddResponse{Type: hagallpb.MsgType_MSG_TYPE_ENTITY_COMPONENT_ADD_RESPONSE, RequestId: req.RequestId}); when !flag(h.FeatureFlags, featureflag.FlagDisableEntityComponentAddBroadcast) && subscriberCount(C, T) > 0 =>> Broadcast(S, P, hagallpb.EntityComponentAddBroadcast{Type: hagallpb.MsgType_MSG_TYPE_ENTITY_COMPONENT_ADD_BROADCAST, OriginTimestamp: req.Timestamp, EntityComponent: hagallpb.EntityComponent{EntityComponentTypeId: T, EntityId: E, Data: req.Data}})]
+//@     emits {C12,C13,C04} [send(respond, hagallpb.EntityComponentAddResponse{Type: hagallpb.MsgType_MSG_TYPE_ENTITY_COMPONENT_ADD_RESPONSE, RequestId: req.RequestId}); when !flag(h.FeatureFlags, featureflag.FlagDisableEntityComponentAddBroadcast) && subscriberCount(C, T) > 0 =>> Broadcast(S, P, hagallpb.EntityComponentAddBroadcast{Type: hagallpb.MsgType_MSG_TYPE_ENTITY_COMPONENT_ADD_BROADCAST, OriginTimestamp: req.Timestamp, EntityComponent: hagallpb.EntityComponent{EntityComponentTypeId: T, EntityId: E, Data: req.Data}})]
 //@   complete behaviours
 //@   disjoint behaviours
 
@@ -346,7 +346,7 @@ package websocket
 //@     assumes decode_ok(msg) && T != 0 && E != 0 && joined(h) && E in S.entities && hasComp(C, T, E)
 //@     ensures {C12} result == nil && !hasComp(C, T, E)
 //@     ensures {C12} forall t: uint32, e: uint32 :: (t != T || e != E) ==> (hasComp(C, t, e) <==> old(hasComp(C, t, e))) && (hasComp(C, t, e) ==> compAt(C, t, e) == old(compAt(C, t, e)))
-//@     emits {C12,C13,C04,C17} [when !flag(h.FeatureFlags, featureflag.FlagDisableEntityComponentDeleteBroadcast) && subscriberCount(C, T) > 0 =>> Broadcast(S, P, hagallpb.EntityComponentDeleteBroadcast{Type: hagallpb.MsgType_MSG_TYPE_ENTITY_COMPONENT_DELETE_BROADCAST, OriginTimestamp: req.Timestamp, EntityComponent: hagallpb.EntityComponent{EntityComponentTypeId: T, EntityId: E}}); send(respond, hagallpb.EntityComponentDeleteResponse{Type: hagallpb.MsgType_MSG_TYPE_ENTITY_COMPONENT_DELETE_RESPONSE, RequestId: req.RequestId})]
+//@     emits {C12,C13,C04} [when !flag(h.FeatureFlags, featureflag.FlagDisableEntityComponentDeleteBroadcast) && subscriberCount(C, T) > 0 =>> Broadcast(S, P, hagallpb.EntityComponentDeleteBroadcast{Type: hagallpb.MsgType_MSG_TYPE_ENTITY_COMPONENT_DELETE_BROADCAST, OriginTimestamp: req.Timestamp, EntityComponent: hagallpb.EntityComponent{EntityComponentTypeId: T, EntityId: E}}); send(respond, hagallpb.EntityComponentDeleteResponse{Type: hagallpb.MsgType_MSG_TYPE_ENTITY_COMPONENT_DELETE_RESPONSE, RequestId: req.RequestId})]
 //@   complete behaviours
 //@   disjoint behaviours
 
@@ -384,7 +384,7 @@ package websocket
 //@     assumes decode_ok(msg) && T != 0 && E != 0 && joined(h) && E in S.entities && hasComp(C, T, E)
 //@     ensures {C12} result == nil && hasComp(C, T, E) && compAt(C, T, E).Data == req.Data
 //@     ensures {C12} forall t: uint32, e: uint32 :: (hasComp(C, t, e) <==> old(hasComp(C, t, e))) && ((t != T || e != E) && hasComp(C, t, e) ==> compAt(C, t, e) == old(compAt(C, t, e)))
-//@     emits {C12,C13,C17} [when !flag(h.FeatureFlags, featureflag.FlagDisableEntityComponentUpdateBroadcast) && subscriberCount(C, T) > 0 =>> BroadcastTo(S, P, hagallpb.EntityComponentUpdateBroadcast{Type: hagallpb.MsgType_MSG_TYPE_ENTITY_COMPONENT_UPDATE_BROADCAST, OriginTimestamp: req.Timestamp, EntityComponent: hagallpb.EntityComponent{EntityComponentTypeId: T, EntityId: E, Data: req.Data}}, _)]
+//@     emits {C12,C13} [when !flag(h.FeatureFlags, featureflag.FlagDisableEntityComponentUpdateBroadcast) && subscriberCount(C, T) > 0 =>> BroadcastTo(S, P, hagallpb.EntityComponentUpdateBroadcast{Type: hagallpb.MsgType_MSG_TYPE_ENTITY_COMPONENT_UPDATE_BROADCAST, OriginTimestamp: req.Timestamp, EntityComponent: hagallpb.EntityComponent{EntityComponentTypeId: T, EntityId: E, Data: req.Data}}, _)]
 //@   complete behaviours
 //@   disjoint behaviours
 
@@ -526,6 +526,7 @@ package websocket
 //@     ensures unchanged_world()
 //@   behaviour left:
 //@     assumes joined(h)
+//@     ensures {C06,C05,C10} wfIDs(S) && wfOwnership(S)
 //@     ensures wfSession(S)
 //@     ensures {C06} forall e: uint32 :: (e in S.entities) <==> (old(e in S.entities) && !old(gone(S, P.ID, e)))
 //@     ensures {C06} forall e: uint32 :: e in S.entities ==> S.entities[e] == old(S.entities[e])
@@ -533,10 +534,10 @@ package websocket
 //@     ensures {C06,C13} forall t: uint32, p: uint32 :: subscribed(C, t, p) <==> (old(subscribed(C, t, p)) && p != P.ID)
 //@     ensures {C06} forall p: uint32 :: (p in S.participants) <==> (old(p in S.participants) && p != P.ID)
 //@     ensures {C06} forall p: uint32 :: p in S.participants ==> S.participants[p] == old(S.participants[p])
-//@     ensures {C06,C02,C17} forall e: uint32 :: evcount(Broadcast, hagallpb.EntityDeleteBroadcast, EntityId, e) == old(evcount(Broadcast, hagallpb.EntityDeleteBroadcast, EntityId, e)) + ite(old(gone(S, P.ID, e)) && !flag(h.FeatureFlags, featureflag.FlagDisableEntityDeleteBroadcast), 1, 0)
+//@     ensures {C06,C02} forall e: uint32 :: evcount(Broadcast, hagallpb.EntityDeleteBroadcast, EntityId, e) == old(evcount(Broadcast, hagallpb.EntityDeleteBroadcast, EntityId, e)) + ite(old(gone(S, P.ID, e)) && !flag(h.FeatureFlags, featureflag.FlagDisableEntityDeleteBroadcast), 1, 0)
 //@     ensures {C07} (len(S.participants) == 0) <==> !registered(R, S)
 //@     ensures {C07} len(S.participants) == 0 ==> once_done(S.closeOnce)
-//@     emits {C06,C02,C17} [when h.stopFrameHandling != nil =>> callfn(h.stopFrameHandling); when !flag(h.FeatureFlags, featureflag.FlagDisableParticipantLeaveBroadcast) =>> Broadcast(S, P, hagallpb.ParticipantLeaveBroadcast{Type: hagallpb.MsgType_MSG_TYPE_PARTICIPANT_LEAVE_BROADCAST, ParticipantId: P.ID})]
+//@     emits {C06,C02} [when h.stopFrameHandling != nil =>> callfn(h.stopFrameHandling); when !flag(h.FeatureFlags, featureflag.FlagDisableParticipantLeaveBroadcast) =>> Broadcast(S, P, hagallpb.ParticipantLeaveBroadcast{Type: hagallpb.MsgType_MSG_TYPE_PARTICIPANT_LEAVE_BROADCAST, ParticipantId: P.ID})]
 //@   complete behaviours
 //@   disjoint behaviours
 //@   loop 1:
@@ -607,7 +608,7 @@ package websocket
 //@     ensures {C07} len(h.currentSession.participants) == 1 && len(h.currentSession.entities) == 0 && h.currentParticipant.ID == 1 && h.currentParticipant.Responder == respond
 //@     ensures {C07} forall g: string :: g != gid(serverid(R.DiscoveryService), h.currentSession.ID) ==> ((g in R.sessions) <==> (old(once_done(R.initOnce)) && old(g in R.sessions))) && (g in R.sessions ==> R.sessions[g] == old(R.sessions[g]))
 //@     ensures {C07} gaugetotal(sessions) == old(gaugetotal(sessions)) + 1
-//@     emits {C04,C02,C17} [send(respond, hagallpb.ParticipantJoinResponse{Type: hagallpb.MsgType_MSG_TYPE_PARTICIPANT_JOIN_RESPONSE, RequestId: req.RequestId, SessionId: gid(serverid(R.DiscoveryService), h.currentSession.ID), SessionUuid: h.currentSession.SessionUUID, ParticipantId: 1}); when !flag(h.FeatureFlags, featureflag.FlagDisableSessionState) =>> send(respond, hagallpb.SessionState{Type: hagallpb.MsgType_MSG_TYPE_SESSION_STATE}); when !flag(h.FeatureFlags, featureflag.FlagDisableParticipantJoinBroadcast) =>> Broadcast(h.currentSession, h.currentParticipant, hagallpb.ParticipantJoinBroadcast{Type: hagallpb.MsgType_MSG_TYPE_PARTICIPANT_JOIN_BROADCAST, OriginTimestamp: req.Timestamp, ParticipantId: 1})]
+//@     emits {C04,C02} [send(respond, hagallpb.ParticipantJoinResponse{Type: hagallpb.MsgType_MSG_TYPE_PARTICIPANT_JOIN_RESPONSE, RequestId: req.RequestId, SessionId: gid(serverid(R.DiscoveryService), h.currentSession.ID), SessionUuid: h.currentSession.SessionUUID, ParticipantId: 1}); when !flag(h.FeatureFlags, featureflag.FlagDisableSessionState) =>> send(respond, hagallpb.SessionState{Type: hagallpb.MsgType_MSG_TYPE_SESSION_STATE}); when !flag(h.FeatureFlags, featureflag.FlagDisableParticipantJoinBroadcast) =>> Broadcast(h.currentSession, h.currentParticipant, hagallpb.ParticipantJoinBroadcast{Type: hagallpb.MsgType_MSG_TYPE_PARTICIPANT_JOIN_BROADCAST, OriginTimestamp: req.Timestamp, ParticipantId: 1})]
 //@   behaviour join_fresh:
 //@     assumes decode_ok(msg) && !joined(h) && found
 //@     ensures {C04} result == nil
@@ -615,11 +616,11 @@ package websocket
 //@     ensures {C10,C05} h.currentParticipant.ID == old(T.participantIDs.currentID) + 1 && !old((T.participantIDs.currentID + 1) in T.participants) && member(T, h.currentParticipant) && h.currentParticipant.Responder == respond && fresh(h.currentParticipant)
 //@     ensures {C07} forall p: uint32 :: p != h.currentParticipant.ID ==> ((p in T.participants) <==> old(p in T.participants)) && (p in T.participants ==> T.participants[p] == old(T.participants[p]))
 //@     ensures {C07} same_contents(T.entities) && forall t: uint32, e: uint32 :: (hasComp(T.entityComponents, t, e) <==> old(hasComp(T.entityComponents, t, e)))
-//@     emits {C04,C02,C17} [send(respond, hagallpb.ParticipantJoinResponse{Type: hagallpb.MsgType_MSG_TYPE_PARTICIPANT_JOIN_RESPONSE, RequestId: req.RequestId, SessionId: sid, SessionUuid: T.SessionUUID, ParticipantId: h.currentParticipant.ID}); when !flag(h.FeatureFlags, featureflag.FlagDisableSessionState) =>> send(respond, hagallpb.SessionState{Type: hagallpb.MsgType_MSG_TYPE_SESSION_STATE}); when !flag(h.FeatureFlags, featureflag.FlagDisableParticipantJoinBroadcast) =>> Broadcast(T, h.currentParticipant, hagallpb.ParticipantJoinBroadcast{Type: hagallpb.MsgType_MSG_TYPE_PARTICIPANT_JOIN_BROADCAST, OriginTimestamp: req.Timestamp, ParticipantId: h.currentParticipant.ID})]
+//@     emits {C04,C02} [send(respond, hagallpb.ParticipantJoinResponse{Type: hagallpb.MsgType_MSG_TYPE_PARTICIPANT_JOIN_RESPONSE, RequestId: req.RequestId, SessionId: sid, SessionUuid: T.SessionUUID, ParticipantId: h.currentParticipant.ID}); when !flag(h.FeatureFlags, featureflag.FlagDisableSessionState) =>> send(respond, hagallpb.SessionState{Type: hagallpb.MsgType_MSG_TYPE_SESSION_STATE}); when !flag(h.FeatureFlags, featureflag.FlagDisableParticipantJoinBroadcast) =>> Broadcast(T, h.currentParticipant, hagallpb.ParticipantJoinBroadcast{Type: hagallpb.MsgType_MSG_TYPE_PARTICIPANT_JOIN_BROADCAST, OriginTimestamp: req.Timestamp, ParticipantId: h.currentParticipant.ID})]
 //@   behaviour switch:
 //@     assumes decode_ok(msg) && !already && joined(h) && (sid == "" || found)
 //@     ensures {C04} result == nil && joined(h)
-//@     emits {C04,C06,C02,C17} [leaveSession(h); send(respond, hagallpb.ParticipantJoinResponse{Type: hagallpb.MsgType_MSG_TYPE_PARTICIPANT_JOIN_RESPONSE, RequestId: req.RequestId, SessionId: gid(serverid(R.DiscoveryService), h.currentSession.ID), SessionUuid: h.currentSession.SessionUUID, ParticipantId: h.currentParticipant.ID}); when !flag(h.FeatureFlags, featureflag.FlagDisableSessionState) =>> send(respond, hagallpb.SessionState{Type: hagallpb.MsgType_MSG_TYPE_SESSION_STATE}); when !flag(h.FeatureFlags, featureflag.FlagDisableParticipantJoinBroadcast) =>> Broadcast(h.currentSession, h.currentParticipant, hagallpb.ParticipantJoinBroadcast{Type: hagallpb.MsgType_MSG_TYPE_PARTICIPANT_JOIN_BROADCAST, OriginTimestamp: req.Timestamp, ParticipantId: h.currentParticipant.ID})]
+//@     emits {C04,C06,C02} [leaveSession(h); send(respond, hagallpb.ParticipantJoinResponse{Type: hagallpb.MsgType_MSG_TYPE_PARTICIPANT_JOIN_RESPONSE, RequestId: req.RequestId, SessionId: gid(serverid(R.DiscoveryService), h.currentSession.ID), SessionUuid: h.currentSession.SessionUUID, ParticipantId: h.currentParticipant.ID}); when !flag(h.FeatureFlags, featureflag.FlagDisableSessionState) =>> send(respond, hagallpb.SessionState{Type: hagallpb.MsgType_MSG_TYPE_SESSION_STATE}); when !flag(h.FeatureFlags, featureflag.FlagDisableParticipantJoinBroadcast) =>> Broadcast(h.currentSession, h.currentParticipant, hagallpb.ParticipantJoinBroadcast{Type: hagallpb.MsgType_MSG_TYPE_PARTICIPANT_JOIN_BROADCAST, OriginTimestamp: req.Timestamp, ParticipantId: h.currentParticipant.ID})]
 //@   complete behaviours
 //@   disjoint behaviours
 //@   loop 1:
